@@ -10,7 +10,6 @@ import (
 	"net/http"
 	"os"
 	"runtime"
-	"sort"
 	"strings"
 	"sync"
 	"time"
@@ -46,8 +45,6 @@ func main() {
 		"non-trivial = a scenario in which at least one call returns its own answer and at least one other outcome or resource is decided by the fault",
 		Run: run})
 }
-
-type sample struct{ lo, hi int }
 
 func pick(c *hk.Ctx, lo, hi int) int { // lo <= x < hi
 	if hi <= lo {
@@ -222,8 +219,6 @@ func enumerate(c *hk.Ctx) []scen {
 	}
 	return out
 }
-
-func fpOf(sc scen, p problem) string { return p.fp }
 
 // replay runs the fault script of a replay file (or a bare scenario object) `VERIF_CALLS_REPLAY_N` times (default 3).
 func replay(c *hk.Ctx, path string) {
@@ -511,5 +506,4 @@ func runGetAfterClose(c *hk.Ctx) {
 		streams = 1 // one round with a stream that outlives Close is the counterexample
 	}
 	c.Emit(map[string]any{"c": "calls.getAfterClose"}, map[string]any{"streams": streams}, true, "getAfterClose")
-	_ = sort.Strings
 }
